@@ -1,0 +1,17 @@
+//go:build verif
+
+package crypto
+
+// Verification hooks (add-only, compiled with -tags verif only): expose unexported
+// container parsing helpers to the correspondence harness.
+
+// VerifValidateSerializedContainer calls validateSerializedContainer.
+func VerifValidateSerializedContainer(d []byte) (byte, error) { return validateSerializedContainer(d) }
+
+// VerifGetSerializedContainerLength calls getSerializedContainerLength.
+func VerifGetSerializedContainerLength(d []byte) (uint64, error) {
+	return getSerializedContainerLength(d)
+}
+
+// VerifMatchOldContainer calls matchOldContainer.
+func VerifMatchOldContainer(d []byte) (byte, int, error) { return matchOldContainer(d) }
